@@ -19,16 +19,18 @@ from . import core
 NS11 = 'http://schemas.xmlsoap.org/soap/envelope/'
 NS12 = 'http://www.w3.org/2003/05/soap-envelope'
 
-PROTOS = ['xml', 'soap11', 'soap12', 'json', 'jsonlist', 'yaml', 'msgpack', 'msgpackrpc', 'http', 'soap11pp']
+PROTOS = ['xml', 'soap11', 'soap12', 'json', 'jsonlist', 'yaml', 'msgpack', 'msgpackrpc', 'http', 'soap11pp', 'jsontuple']
 MODEL_PROTO = {'xml': 'xml', 'soap11': 'soap11', 'soap11pp': 'soap11', 'soap12': 'soap12', 'json': 'dict',
-               'jsonlist': 'list', 'yaml': 'dict', 'msgpack': 'dict', 'msgpackrpc': 'msgpackrpc', 'http': 'http'}
+               'jsonlist': 'list', 'jsontuple': 'list', 'yaml': 'dict', 'msgpack': 'dict', 'msgpackrpc': 'msgpackrpc', 'http': 'http'}
 XMLISH = ('xml', 'soap11', 'soap11pp', 'soap12')
 SHAPES = ['m_str', 'm_void', 'm_multi', 'm_obj', 'm_arr', 'm_bare', 'm_gen']
+MRPC = 'Rec.act'      # an @mrpc member method of a ComplexModel (Application.call_wrapper's second half)
 # the HttpRpc in-protocol used for the GET requests cannot deserialise a bare Unicode parameter (not C09's concern)
-WSGI_SHAPES = [s for s in SHAPES if s != 'm_bare']
+WSGI_SHAPES = [s for s in SHAPES if s != 'm_bare'] + [MRPC]
 HOOK_SITES = ['call', 'return_object']
 FID_HOOK = 'funnel:listener-outside-try'
 FID_SWAP = 'wsgi:status-from-configured-protocol'
+FID_ACTOR_NONE = 'xml:faultactor-none'
 SWAPPABLE = ['xml', 'soap11', 'soap12', 'json', 'jsonlist', 'yaml', 'msgpack', 'msgpackrpc', 'http']
 
 # root-cause finding ids (shared by the T1 switch witnesses and the T3 oracle)
@@ -57,7 +59,8 @@ class Impl:
 
     def __init__(self):
         logging.disable(logging.CRITICAL)
-        from spyne import Application, rpc, Service, Unicode, Integer, Iterable, Array, ComplexModel
+        from spyne import Application, rpc, mrpc, Service, Unicode, Integer, Iterable, Array, ComplexModel
+        from spyne.auxproc.sync import SyncAuxProc
         from spyne import RemoteService, ClientBase, RemoteProcedureBase
         from spyne.model.fault import Fault
         from spyne import error as E
@@ -97,6 +100,8 @@ class Impl:
             def listener(ctx):
                 plan = box['plan']
                 h = plan['user'].get('hook') if plan else None
+                if ctx.descriptor is not None and ctx.descriptor.aux is not None:
+                    return
                 if h and h[0] == site and h[1] == level:
                     box['ctx'] = ctx
                     if plan.get('preset'):
@@ -134,6 +139,14 @@ class Impl:
             def m_bare(ctx, a):
                 return body(ctx, lambda v: v)
 
+            @rpc(_returns=Unicode, _body_style='bare')
+            def m_empty(ctx):
+                return body(ctx, lambda v: v)
+
+            @rpc(_body_style='bare')
+            def m_empty0(ctx):
+                return body(ctx, lambda v: None)
+
             @rpc(Unicode, _returns=Iterable(Unicode))
             def m_gen(ctx, a):
                 first, later = box['plan']['user']['gen']
@@ -142,18 +155,38 @@ class Impl:
                     raise impl.build_exception(ctx, later)
                 yield 'tail'
 
+        class Rec(ComplexModel):
+            __namespace__ = 'tns'
+            i = Integer
+
+            @mrpc(Unicode, _returns=Unicode)
+            def act(self, ctx, a):
+                return body(ctx, lambda v: v)
+
+        class Aux(Service):
+            # an auxiliary method bound to m_str: runs after the primary one, also when that one failed
+            @rpc(Unicode, _returns=Unicode, _aux=SyncAuxProc(process_exceptions=True))
+            def m_str(ctx, a):
+                plan = box['plan']
+                if plan and plan.get('aux'):
+                    if plan['aux'].get('unserialisable'):
+                        return Unserialisable(plan['aux']['tokens'][0])     # makes the auxiliary get_out_string raise
+                    raise build_other(plan['aux'])
+                return 'aux'
+
+        self.Rec, self.Aux = Rec, Aux
         self.S = S
         for site in HOOK_SITES:
             S.event_manager.add_listener('method_' + site, make_listener(site, 'service'))
         self.make_listener = make_listener
         mk = {'xml': XmlDocument, 'soap11': Soap11, 'soap12': Soap12, 'json': JsonDocument,
-              'jsonlist': lambda: JsonDocument(complex_as=list), 'yaml': YamlDocument, 'msgpack': MessagePackDocument,
+              'jsonlist': lambda: JsonDocument(complex_as=list), 'jsontuple': lambda: JsonDocument(complex_as=tuple), 'yaml': YamlDocument, 'msgpack': MessagePackDocument,
               'msgpackrpc': MessagePackRpc, 'http': HttpRpc, 'soap11pp': lambda: Soap11(pretty_print=True)}
         self.mk = mk
         self.apps, self.wsgi, self.protos = {}, {}, {}
         for n in PROTOS:
             out = mk[n]()
-            app = Application([S], 'tns', name='App' + n, in_protocol=HttpRpc(), out_protocol=out)
+            app = Application([S, Aux], 'tns', name='App' + n, in_protocol=HttpRpc(), out_protocol=out, classes=[Rec])
             app.event_manager.add_listener('method_call', swap_listener)
             for site in HOOK_SITES:
                 app.event_manager.add_listener('method_' + site, make_listener(site, 'application'))
@@ -200,6 +233,15 @@ class Impl:
              'RespawnError': E.RespawnError, 'ArgumentError': E.ArgumentError, 'InvalidInputError': E.InvalidInputError,
              'MissingFieldError': E.MissingFieldError, 'ValidationError': E.ValidationError, 'InternalError': E.InternalError,
              'ResourceAlreadyExistsError': E.ResourceAlreadyExistsError}
+        class MemFault(Fault):
+            __namespace__ = 'tns'
+            extra = Unicode
+            num = Integer
+
+        class MemFault2(MemFault):
+            __namespace__ = 'tns'
+            more = Unicode
+        C['MemFault'], C['MemFault2'] = MemFault, MemFault2
         C['GenFault'] = type('GenFault', (Fault,), {})
         C['GenGenFault'] = type('GenGenFault', (C['GenFault'],), {})
         for k, base in ded.items():
@@ -222,6 +264,8 @@ class Impl:
     def _snap(self, ctx):
         # the state at the end of process_request's ladder: the first funnel event, or the exception event that
         # follows a method_return_object event when a later (service level) listener of that event raised
+        if ctx.descriptor is not None and ctx.descriptor.aux is not None:
+            return          # the context of an auxiliary method
         prev = self.box['snap']
         if prev is None or (prev[1] is None and prev[0] != 'generator' and ctx.out_error is not None):
             self.box['snap'] = (self.out_object_kind(ctx.out_object), ctx.out_error)
@@ -245,6 +289,10 @@ class Impl:
         cls = self.classes[spec['cls']]
         inst = cls.__new__(cls)
         self.Fault.__init__(inst, spec['code'], spec['str'], spec.get('actor', ''), spec.get('detail'))
+        for k in (cls.get_flat_type_info(cls) if getattr(cls, '_type_info', None) is not None else {}):
+            setattr(inst, k, None)
+        for k, v in (spec.get('members') or {}).items():
+            setattr(inst, k, v)
         return inst
 
     def build_exception(self, ctx, r):
@@ -280,8 +328,19 @@ class Impl:
 
     def run(self, proto, shape, plan):
         self.box.update(plan=plan, ctx=None, snap=None)
-        qs = '' if shape == 'm_void' else 'a=1'
+        qs = '' if shape == 'm_void' else ('self.i=1&a=1' if shape == MRPC else 'a=1')
         rec = self.call_wsgi(self.wsgi[proto], 'GET', '/' + shape, qs)
+        rec['ctx'], rec['snap'] = self.box['ctx'], self.box['snap']
+        return rec
+
+    def run_raw(self, proto, shape, plan):
+        """a hand-written SOAP request for the bare / empty body styles (the spyne client cannot send them)"""
+        self.box.update(plan=plan, ctx=None, snap=None)
+        app, w, _ = self.loop[proto]
+        ns = NS11 if proto == 'soap11' else NS12
+        arg = '<tns:m_bare xmlns:tns="tns">1</tns:m_bare>' if shape == 'm_bare' else '<tns:%s xmlns:tns="tns"/>' % shape
+        data = ('<e:Envelope xmlns:e="%s"><e:Body>%s</e:Body></e:Envelope>' % (ns, arg)).encode()
+        rec = self.call_wsgi(w, 'POST', '/', '', data, app.out_protocol.mime_type)
         rec['ctx'], rec['snap'] = self.box['ctx'], self.box['snap']
         return rec
 
@@ -300,6 +359,15 @@ class Impl:
             res['client_raised'] = e
             res['http'] = getattr(rp, 'http', None)
         return res
+
+
+class Unserialisable(object):
+    def __init__(self, token):
+        self.token = token
+
+    def __repr__(self):
+        return 'Unserialisable(%s)' % self.token
+    __str__ = __repr__
 
 
 def build_other(o):
@@ -381,7 +449,7 @@ def wire_of_body(proto, body):
     from lxml import etree
     if proto in XMLISH:
         return {'xml': xml_canon(etree.fromstring(body))}
-    if proto in ('json', 'jsonlist'):
+    if proto in ('json', 'jsonlist', 'jsontuple'):
         return {'doc': doc_canon(json.loads(body.decode('utf8')))}
     if proto == 'yaml':
         import yaml
@@ -596,9 +664,20 @@ def detail_json(p):
     return [[cps(k), value_json(v)] for k, v in p]
 
 
+def fault_members(inst):
+    """declared members of the fault's class that are set: [[{ns}name, text]...] in declaration order"""
+    out = []
+    for k, t in type(inst).get_flat_type_info(type(inst)).items():
+        v = getattr(inst, k, None)
+        if v is not None:
+            out.append(['{%s}%s' % (type(inst).get_namespace(), k), str(v)])
+    return out
+
+
 def fault_json(inst):
     return {'code': cps(inst.faultcode), 'str': cps(inst.faultstring), 'actor': cps(inst.faultactor or ''),
-            'detail': detail_json(detail_pairs(inst.detail)), 'lang': cps(inst.lang)}
+            'detail': detail_json(detail_pairs(inst.detail)), 'lang': cps(inst.lang),
+            'members': [[cps(k), cps(v)] for k, v in fault_members(inst)]}
 
 
 # ------------------------------------------------------------------------------------ the documented status (specification)
@@ -704,6 +783,11 @@ def measure_facts(impl):
     a = _status_int(impl.run('soap11', 'm_str', SWAP_WITNESS).get('status'))
     b = _status_int(impl.run('json', 'm_str', dict(SWAP_WITNESS, swap='soap11')).get('status'))
     f['statusAsker'] = 'requestProtocol' if (a, b) == (400, 500) else 'applicationProtocol'
+    rec = impl.run('json', 'm_str', AUX_WITNESS)
+    d = ref_decode('json', wire_of_body('json', rec['body'])) if 'body' in rec else None
+    f['auxGuarded'] = bool(d) and d['code'] == 'Client.Aux'
+    rec = impl.run('soap11', 'm_str', ACTOR_NONE_WITNESS)
+    f['xmlNoneActor'] = 'asEmpty' if ('body' in rec and ref_decode('soap11', wire_of_body('soap11', rec['body']))) else 'raises'
     covered = []
     for site in HOOK_SITES:
         for level in ('application', 'service'):
@@ -715,6 +799,9 @@ def measure_facts(impl):
     return f
 
 
+AUX_WITNESS = {'user': {'plain': {'raises': {'fault': {'cls': 'Fault', 'code': 'Client.Aux', 'str': 'm'}}}},
+               'aux': {'unserialisable': True, 'tokens': ['ZqAuxWitnessXv']}}
+ACTOR_NONE_WITNESS = {'user': {'plain': {'raises': {'fault': {'cls': 'Fault', 'code': 'Client.A', 'str': 'm', 'actor': None}}}}}
 SWAP_WITNESS = {'swap': 'json', 'user': {'plain': {'raises': {'fault': {'cls': 'Fault', 'code': 'Client.Quota', 'str': 'quota exceeded',
                                                                                  'detail': {'limit': {'max': '3'}}}}}}}
 
@@ -779,20 +866,21 @@ def facts09 : Facts09 where
   client12Ns := .%s
   client12Strip := %s
   statusAsker := .%s
+  auxGuarded := %s
 
 end SpyneModel.Generated
 ''' % (', '.join('(.%s, .%s)' % ({'call': 'methodCall', 'return_object': 'returnObject'}[a], b) for a, b in f['hooksInTry']),
        ', '.join('(.%s, %d)' % kv for kv in f['dedTable']), f['clientTest'], max(f['clientStatus'], 0), max(f['defaultStatus'], 0),
        'none' if f['soapStatus'] is None else 'some %d' % f['soapStatus'], lean_text(f['genericCode']), fs,
        b(f['errorPathKeepsStatus']), lean_text(f['env11Prefix']), lean_text(f['env12Prefix']), b(f['ignoreEmptyActor']),
-       f['soap12Detail'], b(f['genFirstGuarded']), f['serErr'], f['client12Ns'], b(f['client12Strip']), f['statusAsker'])
+       f['soap12Detail'], b(f['genFirstGuarded']), f['serErr'], f['client12Ns'], b(f['client12Strip']), f['statusAsker'], b(f['auxGuarded']))
 
 
 GOOD = {'hooksInTry': ALL_HOOKS, 'dedTable': [('tooLong', 413), ('notFound', 404), ('notAllowed', 405), ('invalidCred', 401)],
         'clientTest': 'eqOrDotPrefix', 'clientStatus': 400, 'defaultStatus': 500, 'soapStatus': 500, 'genericCode': 'Server',
         'faultString': ('constant', 'Internal Error'), 'errorPathKeepsStatus': True, 'env11Prefix': 'soap11env',
         'env12Prefix': 'soap12env', 'soap12Detail': 'children', 'genFirstGuarded': True, 'serErr': 'funnelled',
-        'client12Ns': 'byNamespace', 'statusAsker': 'requestProtocol'}
+        'client12Ns': 'byNamespace', 'statusAsker': 'requestProtocol', 'auxGuarded': True}
 # facts with a dedicated root-cause finding id and witness (proto, shape, plan); the others are reported by the
 # T3 oracle under its own ids (status:…, leak:…, intact:…)
 SWITCH = {'soap12Detail': (FID_S12_DETAIL, ('wsgi', 'soap12', 'm_str', S12_DETAIL_WITNESS),
@@ -809,6 +897,9 @@ SWITCH = {'soap12Detail': (FID_S12_DETAIL, ('wsgi', 'soap12', 'm_str', S12_DETAI
                           'when the user code replaces ctx.out_protocol for the request, the status of a fault is still the one of the '
                           'configured protocol: a Client fault written as JSON by an application configured with Soap11 goes out with 500 '
                           '(and the SOAP-written one of a JSON application with 400)'),
+          'auxGuarded': ('wsgi:auxiliary-failure-breaks-response', ('wsgi', 'json', 'm_str', AUX_WITNESS),
+                         'an exception that leaves the processing of an auxiliary method propagates out of the WSGI application after '
+                         'start_response: the fault of the primary call is not delivered'),
           'client12Ns': (FID_C12_NS, ('loop', 'soap12', 'm_str', C12_NS_WITNESS),
                          'the spyne Soap12 client cannot read the faults the spyne Soap12 server writes (needs the prefix "soap" to be '
                          'declared; AttributeError on the empty Role element): ctx.in_error is never set')}
@@ -922,15 +1013,24 @@ def g_fault_spec(rng, impl, proto):
     msg = g_message(rng, proto)
     if proto == 'http' and '\n\n' in msg and rng.random() < 0.5:
         msg = msg.replace('\n\n', '\n')
-    return {'cls': cls, 'code': g_code(rng, proto), 'str': msg, 'actor': rng.choice(['', '', '', 'http://actor.example/x', 'urn:a']),
+    spec = {'cls': cls, 'code': g_code(rng, proto), 'str': msg, 'actor': rng.choice(['', '', '', 'http://actor.example/x', 'urn:a', None]),
             'detail': g_detail(rng, proto)}
+    if cls.startswith('MemFault'):
+        spec['members'] = {}
+        for k in ('extra', 'more') if cls == 'MemFault2' else ('extra',):
+            if rng.random() < 0.8:
+                spec['members'][k] = g_message(rng, proto, edges=False) or 'x'
+        if rng.random() < 0.6:
+            spec['members']['num'] = rng.randrange(-5, 10 ** 6)
+    return spec
 
 
 NATIVE = [('ResourceNotFoundError', ['thing']), ('RequestTooLongError', []), ('RequestNotAllowed', ['nope']),
           ('InvalidCredentialsError', []), ('InvalidCredentialsError', ['denied', {'realm': 'x'}]), ('ArgumentError', ['bad arg']),
           ('InvalidInputError', ['bad', 'data']), ('MissingFieldError', ['fld']), ('ValidationError', ['val']),
           ('InternalError', ['err']), ('ResourceAlreadyExistsError', ['thing']), ('RespawnError', ['thing']),
-          ('Fault', []), ('Fault', ['Client']), ('Fault', ['Server.Deep.Er', 'message']), ('GenFault', ['Client.Gen', 'm', '', {'k': 'v'}])]
+          ('MissingFieldError', ['fld', 'no placeholder here']), ('ValidationError', ['val', 'plain custom message']),
+          ('ValidationError', [('a', 'b'), 'two %s']), ('Fault', []), ('Fault', ['Client']), ('Fault', ['Server.Deep.Er', 'message']), ('GenFault', ['Client.Gen', 'm', '', {'k': 'v'}])]
 
 OTHER_BASES = ['ValueError', 'KeyError', 'RuntimeError', 'Exception', 'TypeError', 'ZeroDivisionError', 'OSError', 'AssertionError',
                'StopIteration', 'AttributeError', 'UnicodeError', 'LookupError', 'NotImplementedError', 'MemoryError', 'RecursionError']
@@ -981,7 +1081,9 @@ def g_plan(rng, impl, proto, shape, allow_swap=True):
         swap = rng.choice(cands)
     app_proto, proto = proto, (swap or proto)      # values are generated for the protocol that writes them
     if shape != 'm_gen' and rng.random() < 0.3:
-        user = {'hook': [rng.choice(HOOK_SITES), rng.choice(['application', 'service']), g_raised(rng, impl, proto), {'value': marker}]}
+        # a member method has no service class: only application level listeners exist for it
+        user = {'hook': [rng.choice(HOOK_SITES), rng.choice(['application', 'service'] if shape != MRPC else ['application']),
+                         g_raised(rng, impl, proto), {'value': marker}]}
     elif shape == 'm_gen':
         r = rng.random()
         if r < 0.45:
@@ -1008,6 +1110,10 @@ def g_plan(rng, impl, proto, shape, allow_swap=True):
             plan['swap_at'] = 'listener'
         elif 'plain' in user and rng.random() < 0.4:
             plan['swap_at'] = 'listener'
+    if shape == 'm_str' and 'gen' not in user and rng.random() < 0.12:
+        plan['aux'] = g_other(rng)          # the auxiliary method bound to m_str raises, too
+        if rng.random() < 0.35:
+            plan['aux'] = {'unserialisable': True, 'tokens': [g_token(rng)]}
     if rng.random() < 0.04:
         plan['preset'] = rng.choice(['418 Teapot', '409 Conflict', '503 Service Unavailable'])
     return plan
@@ -1021,7 +1127,9 @@ def fixed_cases(impl):
           F(detail={}), F(detail={'a': 'b'}), F(detail={'a': 'b', 'c': {'d': 'e'}}), F(detail={'a': None, 'b': '', 'c': {}}),
           F(detail={'a': {'b': {'c': {'d': 'deep'}}}}), F(detail={'d': ['x', 'y']}), F(detail={'d': ['only']}),
           F(detail={'d': [{'a': '1'}, {'b': '2'}], 'e': [], 'f': ['', 'z']}), F(detail={'a': {'l': ['p', {'q': ['r', 's', 't']}, {}]}}),
-          F(actor='http://actor/'), F(cls='GenFault', code='Server.Gen'),
+          F(actor='http://actor/'), F(actor=None), F(actor=None, detail={'a': 'b'}),
+          F(cls='MemFault', members={'extra': 'EXTRA', 'num': 5}), F(cls='MemFault2', code='Server.M', members={'extra': 'e', 'more': 'm<&>'}),
+          F(cls='MemFault2', members={}, detail={'k': 'v'}), F(cls='GenFault', code='Server.Gen'),
           F(cls='Gen_notFound', code='Server.Odd'), F(cls='GenGen_tooLong', code='Client.Big'), F(cls='Multi_notFound_tooLong'),
           F(cls='Multi_invalidCred_notAllowed', code='Server'), F(cls='Multi_ArgumentError_notFound', code='Client.ArgumentError'),
           F(cls='RequestNotAllowed', code='Whatever'), F(cls='InvalidCredentialsError', code='Server.Cred', detail={'realm': 'r'}),
@@ -1050,6 +1158,18 @@ def fixed_cases(impl):
                     marker = 'RetMarkZqHook%03d%dXv' % (i, j)
                     shape = 'm_str' if ('redirect' in r or j % 2 == 0) else SHAPES[1 + (i + j) % 4]
                     out.append((shape, {'user': {'hook': [site, level, r, {'value': marker}]}, 'marker': marker}))
+    for i, r in enumerate(rs):
+        if i % 3 == 1 and 'redirect' not in r:
+            out.append((MRPC, {'user': {'plain': {'raises': r}}, 'marker': 'RetMarkZqMrpc%03dXv' % i}))
+    aux = mk_other('KeyError', text='secret ZqAuxTokenAAAXv', type='ExcZqAuxTokenBBBXv', frames=['fn_ZqAuxTokenCCCXv'],
+                   tokens=['ZqAuxTokenAAAXv', 'ZqAuxTokenBBBXv', 'ZqAuxTokenCCCXv'])['other']
+    for i in (0, 1, 14, len(rs) - 1):
+        out.append(('m_str', {'user': {'plain': {'raises': rs[i]}}, 'marker': 'RetMarkZqAux%03dXv' % i, 'aux': aux}))
+    out.append(('m_str', {'user': {'plain': {'value': 'RetMarkZqAuxOkXv'}}, 'marker': 'RetMarkZqAuxOkXv', 'aux': aux}))
+    unser = {'unserialisable': True, 'tokens': ['ZqAuxTokenDDDXv']}
+    out.append(('m_str', {'user': {'plain': {'value': 'RetMarkZqAuxUnXv'}}, 'marker': 'RetMarkZqAuxUnXv', 'aux': unser}))
+    out.append(('m_str', {'user': {'plain': {'raises': rs[14]}}, 'marker': 'RetMarkZqAuxUn2Xv', 'aux': unser}))
+    out.append((MRPC, {'user': {'plain': {'value': 'RetMarkZqMrpcOkXv'}}, 'marker': 'RetMarkZqMrpcOkXv'}))
     out.append(('m_str', {'user': {'plain': {'value': 'RetMarkZqFixedOkXv'}}, 'marker': 'RetMarkZqFixedOkXv'}))
     for i, sw in enumerate(SWAPPABLE):
         for j, r in enumerate((rs[0], rs[1], rs[15], rs[-1])):
@@ -1156,6 +1276,13 @@ class Oracle:
         rs = raised_of(plan)
         u = plan['user']
         where = where_of(u)
+        if plan.get('aux') and 'escaped' not in rec:
+            # the auxiliary method raised a non-Fault exception after the primary one: nothing of it may show
+            blob = self.blob(rec)
+            for t in plan['aux'].get('tokens', []):
+                if t.encode() in blob:
+                    self.fail('leak:%s:aux' % proto, 'secret token %s of the exception raised by the auxiliary method appears in the response' % t, case)
+                    break
         if not rs or rs[0].get('redirect', 1) is None:
             # control: nothing raised (or a successful redirect) -> 200 class response, no fault
             if 'escaped' in rec:
@@ -1165,7 +1292,11 @@ class Oracle:
         if 'escaped' in rec:
             e = rec['escaped']
             fid = 'escape:%s:%s:%s' % (proto, where, type(e).__name__ if 'other' not in r else 'other')
-            if where.startswith('listener') and len(self.facts['hooksInTry']) < 4:
+            if self.actor_none_case(proto, r):
+                fid = FID_ACTOR_NONE
+            elif plan.get('aux', {}).get('unserialisable') and not self.facts['auxGuarded']:
+                fid = 'wsgi:auxiliary-failure-breaks-response'
+            elif where.startswith('listener') and len(self.facts['hooksInTry']) < 4:
                 fid = FID_HOOK
             elif where == 'gen-first' and not self.facts['genFirstGuarded']:
                 fid = FID_GEN_FIRST
@@ -1234,6 +1365,9 @@ class Oracle:
         for w in ('%sResponse' % shape, '%sResult' % shape):
             if w.encode() in rec['body']:
                 self.fail(later_fid or 'return-sent:%s' % proto, 'the response to a raised exception contains the return wrapper %s' % w, case)
+
+    def actor_none_case(self, proto, r):
+        return (self.facts['xmlNoneActor'] != 'asEmpty' and proto in XMLISH and 'fault' in r and r['fault'].get('actor', '') is None)
 
     @staticmethod
     def blob(rec):
@@ -1318,7 +1452,16 @@ def status_class(impl, inst):
 
 
 # ------------------------------------------------------------------------------------ run
+def load_staged_known(ctx):
+    """known findings staged in fixes/C09-known.json that are not yet in known_findings.json"""
+    p = os.path.join(core.VERIF, 'fixes', 'C09-known.json')
+    if os.path.exists(p):
+        have = {k.get('id') for k in ctx.known_findings}
+        ctx.known_findings += [k for k in json.load(open(p)) if k.get('property') == ctx.prop and k.get('id') not in have]
+
+
 def run(ctx):
+    load_staged_known(ctx)
     impl = Impl()
     rng = ctx.rng
 
@@ -1341,6 +1484,10 @@ def run(ctx):
                             {'case': {'via': via, 'proto': proto, 'shape': shape, 'plan': plan}, 'fact': k, 'measured': f[k]})
             else:
                 ctx.log('fact %s measured %r (good %r): left to the T3 oracle' % (k, f[k], good))
+    if f['xmlNoneActor'] != 'asEmpty':
+        ctx.hit('fact-bad:xmlNoneActor')
+        ctx.finding(FID_ACTOR_NONE, 'a Fault raised with faultactor=None cannot be written by the XML protocols: TypeError escapes the WSGI application',
+                    {'case': {'via': 'wsgi', 'proto': 'soap11', 'shape': 'm_str', 'plan': ACTOR_NONE_WITNESS}, 'fact': 'xmlNoneActor'})
     if f['client12Strip']:
         ctx.finding(FID_C12_STRIP, 'Soap12.fault_from_element strips the reason text',
                     {'case': {'via': 'loop', 'proto': 'soap12', 'shape': 'm_str', 'plan': C12_STRIP_WITNESS}, 'fact': 'client12Strip'})
@@ -1401,16 +1548,31 @@ def run(ctx):
         insts = build_insts(impl, plan)
         rec = impl.run(proto, shape, plan)
         run_case(ctx, impl, oracle, add, 'wsgi', proto, shape, plan, rec, insts)
+    # ---- bare and empty body styles: raw SOAP requests (Application.process_request's in_object adjustment)
+    for proto in ('soap11', 'soap12'):
+        raw = [(sh, plan) for sh0, plan in fixed if sh0 in ('m_void', 'm_multi') and not plan.get('swap') and 'hook' not in plan['user']
+               for sh in ('m_bare', 'm_empty', 'm_empty0')]
+        for _ in range(120 if ctx.thorough else 25):
+            sh = rng.choice(['m_bare', 'm_empty', 'm_empty0'])
+            raw.append((sh, g_plan(rng, impl, proto, sh, allow_swap=False)))
+        for shape, plan in raw:
+            if not plan_allowed(proto, plan):
+                continue
+            insts = build_insts(impl, plan)
+            rec = impl.run_raw(proto, shape, plan)
+            if raised_of(plan) or 'escaped' in rec:
+                run_case(ctx, impl, oracle, add, 'raw', proto, shape, plan, rec, insts)
+            ctx.hit('raw:' + shape)
     # ---- loopback clients
     loop_cases = []
     for proto in ('soap11', 'soap12', 'msgpackrpc'):
         for shape, plan in fixed:
             if plan.get('swap'):
                 continue
-            if shape in ('m_str', 'm_void', 'm_bare') or (shape == 'm_gen' and proto != 'msgpackrpc'):
+            if shape in ('m_str', 'm_void') or (shape == 'm_gen' and proto != 'msgpackrpc'):
                 loop_cases.append((proto, shape, plan))
         for _ in range((900 if ctx.thorough else 150) if proto != 'msgpackrpc' else 6):
-            shape = rng.choice(['m_str', 'm_void', 'm_multi', 'm_obj', 'm_gen', 'm_bare'])
+            shape = rng.choice(['m_str', 'm_void', 'm_multi', 'm_obj', 'm_gen'])
             loop_cases.append((proto, shape, g_plan(rng, impl, proto, shape, allow_swap=False)))
     for proto, shape, plan in loop_cases:
         if not plan_allowed(proto, plan, 'loop'):
@@ -1480,9 +1642,14 @@ def run_case(ctx, impl, oracle, add, via, proto, shape, plan, rec, insts):
             if not ok:
                 oracle.fail('funnel:out-error-not-the-raised-fault', 'ctx.out_error is %r / out_object %s after user code raised %r'
                             % (err, kind, insts[0]), {'via': via, 'proto': proto, 'shape': shape, 'plan': plan})
+    if rs and oracle.actor_none_case(proto, rs[0]):
+        ctx.hit('skipped-t2:xmlNoneActor')
+        return
     # T2: the whole response
     preset = _status_int(plan['preset']) if plan.get('preset') else None
     q = {'op': 'wsgi', 'proto': mp, 'req': MODEL_PROTO[proto] if plan.get('swap') else None, 'preset': preset, 'user': uj}
+    if plan.get('aux') and shape == 'm_str':
+        q['aux'] = ['propagates' if plan['aux'].get('unserialisable') else 'done']
     if 'escaped' in rec:
         out = {'escapes': True}
     else:
@@ -1542,6 +1709,7 @@ def norm_answer(a):
         a['body'] = canon_wire(a['body'])
     if isinstance(a.get('ok'), dict) and 'lang' in a['ok']:
         a['ok'].pop('lang')
+        a['ok'].pop('members', None)
         a['ok']['detail'] = sort_detail_json(a['ok'].get('detail'))
     if isinstance(a.get('ok'), dict) and 'detail' in a['ok']:
         a['ok']['detail'] = sort_detail_json(a['ok'].get('detail'))
@@ -1592,7 +1760,9 @@ def replay(ctx, obj):
         return 0
     proto, shape, plan = case['proto'], case['shape'], case['plan']
     insts = build_insts(impl, plan)
-    if case['via'] == 'loop':
+    if case['via'] == 'raw':
+        rec = impl.run_raw(proto, shape, plan)
+    elif case['via'] == 'loop':
         res = impl.run_loop(proto, shape, plan)
         rec = res.get('http') or {}
         print('client: in_error=%r client_raised=%r' % (res.get('in_error'), res.get('client_raised')))
